@@ -51,11 +51,11 @@ type brHarness struct {
 	burned       map[int]bool
 	pendEst      map[[2]int]uint64
 	taxCfg       map[int][3]string
-	taxRate      map[int][2]int64 // token -> (num, den) of the configured rate
-	taxEx        map[int]int      // token -> exempt user (0 = none)
+	taxRate      map[int][2]int64  // token -> (num, den) of the configured rate
+	taxEx        map[int]int       // token -> exempt user (0 = none)
 	lastTax      map[int][3]string // token -> (rate string as submitted, n, d) of the setting in force
 	lastLimit    map[int][2]string // token -> (period index, limit) of the setting in force
-	limits       map[int][2]int64 // period, start of current window (tracked by harness only for generation)
+	limits       map[int][2]int64  // period, start of current window (tracked by harness only for generation)
 	fundedSupply map[int]*big.Int
 	minted       map[int]*big.Int
 	burnt        map[int]*big.Int
@@ -387,8 +387,15 @@ func runBridgeCase(t *testing.T, r *Rec, prop string, nops int) {
 	b := &brHarness{r: r, e: e, nTok: 2, accepted: map[int]obsTx{}, refunded: map[int]bool{}, burned: map[int]bool{},
 		taxRate: map[int][2]int64{}, taxEx: map[int]int{}, lastTax: map[int][3]string{}, lastLimit: map[int][2]string{}, ckptSeen: map[string]bool{}, deposits: map[uint64][2]int64{}, pendEst: map[[2]int]uint64{}, fundedSupply: map[int]*big.Int{}, minted: map[int]*big.Int{}, burnt: map[int]*big.Int{}}
 	b.initKeys()
-	e.addToken("utok1", "0x1000000000000000000000000000000000000001")
-	e.addToken("utok2", "0x1000000000000000000000000000000000000002")
+	// denominations as they occur on a chain: plain lower-case ones, IBC vouchers (an upper-case hash) and token factory
+	// denoms with capitals in the sub-denom - every setting and look-up keyed by the denom must spell it exactly as the coin does
+	spell := [][2]string{{"utok1", "utok2"},
+		{"ibc/27394FB092D2ECCD56123C74F36E4C1F926001CEADA9CA97EA622B25F41E5EB2", "utok2"},
+		{"utok1", "factory/" + e.users[0].String() + "/GRAINx"},
+		{"ibc/C4CFF46FD6DE35CA4CF4CE031E643C8FDC9BA4B99AE598E9B0ED98FE3A2319F9", "factory/" + e.users[1].String() + "/Gold.Bar"}}[r.Rng.Intn(4)]
+	r.Stat("denoms." + map[bool]string{true: "mixed_case", false: "lower_case"}[spell[0] != "utok1" || spell[1] != "utok2"])
+	e.addToken(spell[0], "0x1000000000000000000000000000000000000001")
+	e.addToken(spell[1], "0x1000000000000000000000000000000000000002")
 	for tk := 1; tk <= b.nTok; tk++ {
 		b.fundedSupply[tk], b.minted[tk], b.burnt[tk] = new(big.Int), new(big.Int), new(big.Int)
 	}
